@@ -1,0 +1,29 @@
+//go:build verif
+// +build verif
+
+package satisfaction
+
+// Contracts for gocv (comment-only; compiled out unless the tag "verif" is set, and empty then).
+
+// This listener's definitions of the abstract predicates of model.BiasListener: the satisfaction heuristic has no
+// per-criterion weights; its thresholds are handled by the nested satisfaction-levels listener (interface, not specified here)
+//@ pred saValid(l model.BiasListener, p model.MethodParameters) = typeis(p, SatisfactionParameters)
+//@ pred saCovers(l model.BiasListener, p model.MethodParameters, id string) = typeis(p, SatisfactionParameters)
+//@ pred saAcceptsAny(l model.BiasListener, x model.MethodParameters) = typeis(x, satisfactionAddedCriterion)
+//@ pred saAccepts(l model.BiasListener, x model.MethodParameters, id string) = typeis(x, satisfactionAddedCriterion)
+
+//@ func (*SatisfactionParameters).with
+//@   property C07
+//@   nopanic
+//@   ensures [replaced] result.Params == params && result.Function == s.Function && result.RandomSeed == s.RandomSeed
+//@             && result.CurrentChoice == s.CurrentChoice && result.RandomAlternativesOrdering == s.RandomAlternativesOrdering
+
+//@ func (*SatisfactionBiasListener).OnCriteriaRemoved
+//@   property C07 C15
+//@   refines model.BiasListener.OnCriteriaRemoved with validParams=saValid, coversId=saCovers
+//@ func (*SatisfactionBiasListener).OnCriterionAdded
+//@   property C07 C18
+//@   refines model.BiasListener.OnCriterionAdded with validParams=saValid, coversId=saCovers, accepts=saAccepts, acceptsAny=saAcceptsAny
+//@ func (*SatisfactionBiasListener).Merge
+//@   property C07 C18
+//@   refines model.BiasListener.Merge with validParams=saValid, coversId=saCovers, accepts=saAccepts, acceptsAny=saAcceptsAny
